@@ -298,8 +298,9 @@ func (w *World) parseContractLines(lines []string, locs []string, pkgRel string,
 			w.ifaceAlias[strings.TrimSpace(p[0])] = strings.TrimSpace(p[1])
 			cur = nil
 		case "pool":
-			// pool <global> <element type>
-			if len(f) != 3 {
+			// pool <global> <element type> [inv <expr over `it`>]: the invariant holds of every object in the pool - assumed of what
+			// Get returns, an obligation at every Put; that New establishes it is an ordinary postcondition of the New closure
+			if len(f) < 3 {
 				return fmt.Errorf("%s: bad pool declaration", loc)
 			}
 			g := f[1]
@@ -308,6 +309,20 @@ func (w *World) parseContractLines(lines []string, locs []string, pkgRel string,
 			}
 			w.pools[g] = f[2]
 			w.poolPkg[g] = pkgRel
+			if len(f) > 3 {
+				if f[3] != "inv" || len(f) < 5 {
+					return fmt.Errorf("%s: bad pool declaration (pool <global> <type> [inv <expr>])", loc)
+				}
+				i := strings.Index(rest, " inv ")
+				cl, err := mkClause(strings.TrimSpace(rest[i+5:]), loc)
+				if err != nil {
+					return err
+				}
+				if w.poolInv == nil {
+					w.poolInv = map[string]Clause{}
+				}
+				w.poolInv[g] = cl
+			}
 			cur = nil
 		case "streamalias":
 			// streamalias *pkg.T field.field: the ghost stream of a T is that of the reader object reached through the path
